@@ -8,7 +8,8 @@ Definition wf_policy (pol : policy) : bool := (1 <=? p_trusted pol) && (p_truste
 
 Definition wf_row (r : note_row) : bool :=
   (0 <=? r_value r) && match r_block r with Some h => 0 <=? h | None => true end
-  && match r_shin r with Some h => 0 <=? h | None => true end.
+  && match r_shin r with Some h => 0 <=? h | None => true end
+  && match r_lock r with Some h => 0 <=? h | None => true end.
 
 Definition wf_db (db : list note_row) : bool :=
   nodup_refs (refs_of db) && forallb wf_row db.
@@ -20,6 +21,6 @@ Definition distinct_positions (db : list note_row) : bool :=
 Definition wf_case (c : case) : bool :=
   match c with
   | CSelect db e _ _ _ pol _ _ _ => wf_db db && wf_policy pol && (0 <=? e_target e) && distinct_positions db
-  | CPropose db e _ pay _ _ pol _ _ _ _ => wf_db db && wf_policy pol && (0 <=? e_target e) && (0 <=? pay) && distinct_positions db
+  | CPropose db e _ pay _ _ _ pol _ _ _ _ _ => wf_db db && wf_policy pol && (0 <=? e_target e) && (0 <=? pay) && distinct_positions db
   | CLock db _ _ _ _ _ _ => wf_db db
   end.
